@@ -11,7 +11,7 @@ class C03(SchedProp):
                  "default); all executions with <= d non-identity batches are run to completion and compared with the "
                  "default run and the possible-world reference")
     rule = ("programs of families F1-F4 whose default run is correct x all schedules with <= d deviations (quick d=1, "
-            "thorough d=2); a deviation permutes one batch (all k! orders for k<=4); states = programs, transitions = "
+            "thorough d=2; a choice tree with at most 32 / 256 combinations is explored completely); a deviation permutes one batch (all k! orders for k<=4); states = programs, transitions = "
             "choice points executed; non-trivial = program with >=1 choice point and >=1 probabilistic choice")
     assumptions = ["permutation happens in a MessageFIFO subclass installed through the documented init_message_stack "
                    "extension point, which reorders exactly the batches the anchor's env-guarded shuffle would",
